@@ -1808,6 +1808,19 @@ func (db *DB) verifyWithExecutor(ctx context.Context, exec *syncExecutor) (info 
 			"salt1", salt1,
 			"salt2", salt2)
 
+		// The last synced frame is intact, but the previous WAL generation may
+		// have grown past our position before it was checkpointed (e.g. while
+		// litestream was not running). A frame of that generation at our
+		// position holds data we never copied, so only a snapshot is safe.
+		if grew, err := db.walGenerationGrewPast(info.offset, frameSize, dec.Header().WALSalt1, dec.Header().WALSalt2); err != nil {
+			return info, fmt.Errorf("check wal past synced position: %w", err)
+		} else if grew {
+			info.offset = WALHeaderSize
+			info.salt1, info.salt2 = salt1, salt2
+			info.reason = "previous wal generation grew past synced position, snapshotting"
+			return info, nil
+		}
+
 		info.offset = WALHeaderSize
 		info.salt1, info.salt2 = salt1, salt2
 
@@ -1864,6 +1877,24 @@ func (db *DB) lastPageMatch(ctx context.Context, dec *ltx.Decoder, prevWALOffset
 		}
 		return true, nil // Page matches
 	}
+}
+
+// walGenerationGrewPast reports whether the WAL still holds a frame at offset
+// that carries the given (previous generation) salts, i.e. the previous
+// generation was extended beyond offset before the WAL was restarted.
+func (db *DB) walGenerationGrewPast(offset, frameSize int64, salt1, salt2 uint32) (bool, error) {
+	fi, err := os.Stat(db.WALPath())
+	if err != nil {
+		return false, err
+	} else if fi.Size() < offset+frameSize {
+		return false, nil
+	}
+
+	hdr, err := readWALFileAt(db.WALPath(), offset, WALFrameHeaderSize)
+	if err != nil {
+		return false, err
+	}
+	return binary.BigEndian.Uint32(hdr[8:]) == salt1 && binary.BigEndian.Uint32(hdr[12:]) == salt2, nil
 }
 
 // detectFullCheckpoint attempts to detect checks if a FULL or RESTART checkpoint
